@@ -740,6 +740,10 @@ def execute(world, sb, res):
 
         # ---- strict-history mode: (c) fresh-server equality and (e) builds => no diagnostics ------
         strict_ok = mode["strict"] and not tainted and not (unsaved_libs & set(buffers))
+        # No rootUri *and* a working directory entered through a symlink: the server falls back to its physical cwd while the client's
+        # URIs carry the link's path, so start-up index and documents name the same files differently (recorded known finding; violations
+        # of the history clauses in this configuration carry their own cause so that nothing else is suppressed with them)
+        unrooted = (not world.get("root_uri", True)) and bool(world.get("root_via_symlink"))
         if strict_ok:
             for uri in sorted(buffers):
                 if uri in lib_uris:
@@ -778,12 +782,12 @@ def execute(world, sb, res):
                 for pr, a_sess, a_fresh in probe_pairs:
                     res.probe("final_probes_compared")
                     if a_sess != a_fresh:
-                        res.violate("C20.answer-history-dependent", pr["m"], "%s at (%s,%s) of the final text is answered differently by the session's server and by a fresh server "
+                        res.violate("C20.answer-history-dependent", "unrooted-symlink" if unrooted else pr["m"], "%s at (%s,%s) of the final text is answered differently by the session's server and by a fresh server "
                                     "opened on that text\nsession: %s\nfresh:   %s\nfinal text: %r\n%s" % (
                                         pr["m"], pr.get("line"), pr.get("ch"), json.dumps(a_sess)[:600], json.dumps(a_fresh)[:600], final[:800], ctx()))
                         break
                 if got != want:
-                    res.violate("C20.history-dependent", "strict", "diagnostics after the session differ from a fresh server opened on the final text\n"
+                    res.violate("C20.history-dependent", "unrooted-symlink" if unrooted else "strict", "diagnostics after the session differ from a fresh server opened on the final text\n"
                                 "session: %r\nfresh:   %r\nfinal text: %r\n%s" % (got, want, final[:800], ctx()))
                 # (e) the compiler builds it => no diagnostics
                 fo = fmt_oracle(sb, res, fmt_cache, final)
